@@ -4,4 +4,289 @@
 import RsjModel.Dec
 namespace Rsj.Dec
 
+/-! ### characters -/
+
+theorem isDigit_ne {c d : Char} (h : isDigit c = true) (hd : isDigit d = false) :
+    (c == d) = false := by
+  cases hcd : c == d with
+  | false => rfl
+  | true =>
+    have : c = d := by simpa using hcd
+    subst this; rw [h] at hd; cases hd
+
+theorem isDigit_not_isE {c : Char} (h : isDigit c = true) : isE c = false := by
+  unfold isE; rw [isDigit_ne h (by decide), isDigit_ne h (by decide)]; rfl
+
+/-- underscore-free text -/
+def F (cs : List Char) : List Char := cs.filter (· != '_')
+
+theorem F_nil : F [] = [] := rfl
+theorem F_cons_us (cs : List Char) : F ('_' :: cs) = F cs := by simp [F]
+theorem F_cons_ne {c : Char} (cs : List Char) (h : (c == '_') = false) :
+    F (c :: cs) = c :: F cs := by
+  simp [F, bne, h]
+
+theorem splitAtFirst_cons_false {p : Char → Bool} {c : Char} (cs : List Char) (h : p c = false) :
+    splitAtFirst p (c :: cs) = (c :: (splitAtFirst p cs).1, (splitAtFirst p cs).2) := by
+  simp [splitAtFirst, h]
+
+theorem splitAtFirst_cons_true {p : Char → Bool} {c : Char} (cs : List Char) (h : p c = true) :
+    splitAtFirst p (c :: cs) = ([], some cs) := by
+  simp [splitAtFirst, h]
+
+theorem ofDigits_foldl (ds : List Nat) (a : Nat) :
+    ds.foldl (fun a d => a * 10 + d) a = a * 10 ^ ds.length + ofDigits ds := by
+  induction ds generalizing a with
+  | nil => simp [ofDigits]
+  | cons d ds ih =>
+    simp only [List.foldl_cons, List.length_cons, ofDigits]
+    rw [ih, ih (0 * 10 + d)]
+    simp [Nat.pow_succ, Nat.add_mul, Nat.mul_assoc, Nat.mul_comm, Nat.add_assoc]
+
+theorem ofDigits_cons (d : Nat) (ds : List Nat) :
+    ofDigits (d :: ds) = d * 10 ^ ds.length + ofDigits ds := by
+  show (d :: ds).foldl (fun a d => a * 10 + d) 0 = _
+  simp only [List.foldl_cons]
+  rw [ofDigits_foldl]; simp
+
+/-- a successful chain of `checked_mul(10)` / `checked_add(d)` computes the plain value -/
+theorem checkedMulAdd_foldl (ds : List Nat) : ∀ (e0 : Option Nat) (E : Nat),
+    ds.foldl checkedMulAdd e0 = some E →
+    ∃ a, e0 = some a ∧ E = ds.foldl (fun a d => a * 10 + d) a := by
+  induction ds with
+  | nil => intro e0 E h; exact ⟨E, h, rfl⟩
+  | cons d ds ih =>
+    intro e0 E h
+    simp only [List.foldl_cons] at h
+    obtain ⟨a, ha, hE⟩ := ih _ _ h
+    cases e0 with
+    | none => simp [checkedMulAdd] at ha
+    | some b =>
+      refine ⟨b, rfl, ?_⟩
+      simp only [checkedMulAdd] at ha
+      split at ha
+      · cases ha
+      · split at ha
+        · cases ha
+        · cases ha; simpa using hE
+
+/-! ### the state machine, state by state -/
+
+theorem expDigits_spec (cs : List Char) : ∀ (us : Bool) (acc acc' : Acc),
+    go (.expDigits us) acc cs = .ok (acc', []) →
+    acc'.digits = acc.digits ∧ acc'.implicitExp = acc.implicitExp ∧ acc'.expNeg = acc.expNeg ∧
+    acc'.explicitExp = (digitsOf (F cs)).foldl checkedMulAdd acc.explicitExp := by
+  induction cs with
+  | nil =>
+    intro us acc acc' h
+    simp only [go, atEnd] at h
+    split at h
+    · cases h
+    · cases h; simp [F, digitsOf]
+  | cons c cs ih =>
+    intro us acc acc' h
+    simp only [go, next] at h
+    by_cases hd : isDigit c = true
+    · simp only [hd, if_true] at h
+      have := ih false _ acc' h
+      rw [F_cons_ne cs (isDigit_ne hd (by decide))]
+      simp only [digitsOf, List.map_cons, List.foldl_cons]
+      exact this
+    · by_cases hu : (!us && c == '_') = true
+      · simp only [hd, hu, if_true] at h
+        simp only [Bool.false_eq_true, if_false] at h
+        have hc : c = '_' := by
+          simp only [Bool.and_eq_true, beq_iff_eq] at hu; exact hu.2
+        subst hc
+        rw [F_cons_us]
+        exact ih true acc acc' h
+      · simp only [hd, hu] at h
+        simp only [Bool.false_eq_true, if_false] at h
+        cases us <;> simp at h
+
+theorem ofDigits_cons_foldl (d : Nat) (ds : List Nat) :
+    ds.foldl (fun a d => a * 10 + d) d = ofDigits (d :: ds) := by
+  simp [ofDigits]
+
+theorem expSign_spec {cs : List Char} {acc acc' : Acc}
+    (h : go .expSign acc cs = .ok (acc', [])) :
+    acc'.digits = acc.digits ∧ acc'.implicitExp = acc.implicitExp ∧ acc'.expNeg = acc.expNeg ∧
+    (∃ c t, F cs = c :: t ∧ isDigit c = true) ∧
+    ∀ E, acc'.explicitExp = some E → E = ofDigits (digitsOf (F cs)) := by
+  cases cs with
+  | nil => simp [go, atEnd] at h
+  | cons c rest =>
+    simp only [go, next] at h
+    by_cases hd : isDigit c = true
+    · simp only [hd, if_true] at h
+      obtain ⟨h1, h2, h3, h4⟩ := expDigits_spec rest false _ acc' h
+      have hF := F_cons_ne rest (isDigit_ne hd (by decide))
+      refine ⟨h1, h2, h3, ⟨c, F rest, hF, hd⟩, ?_⟩
+      intro E hE
+      rw [h4] at hE
+      obtain ⟨a, ha, hEa⟩ := checkedMulAdd_foldl _ _ _ hE
+      cases ha
+      rw [hF, hEa]
+      simp only [digitsOf, List.map_cons]
+      exact ofDigits_cons_foldl _ _
+    · simp [hd] at h
+
+theorem expPartValue_digit {c : Char} (t : List Char) (hd : isDigit c = true) :
+    expPartValue (c :: t) = ((ofDigits (digitsOf (c :: t)) : Nat) : Int) := by
+  have h1 : c ≠ '-' := by
+    intro e; subst e; revert hd; decide
+  have h2 : c ≠ '+' := by
+    intro e; subst e; revert hd; decide
+  unfold expPartValue
+  split
+  · next heq => cases heq; exact absurd rfl h1
+  · next heq => cases heq; exact absurd rfl h2
+  · rfl
+
+theorem exp_spec {cs : List Char} {acc acc' : Acc}
+    (h : go .exp acc cs = .ok (acc', [])) (hneg : acc.expNeg = false) :
+    acc'.digits = acc.digits ∧ acc'.implicitExp = acc.implicitExp ∧
+    ∀ E : Nat, acc'.explicitExp = some E →
+      expPartValue (F cs) = (if acc'.expNeg then -(E : Int) else (E : Int)) := by
+  cases cs with
+  | nil => simp [go, atEnd] at h
+  | cons c rest =>
+    simp only [go, next] at h
+    by_cases hp : (c == '+') = true
+    · simp only [hp, if_true] at h
+      have hc : c = '+' := by simpa using hp
+      subst hc
+      obtain ⟨h1, h2, h3, ⟨d, t, hF, hd⟩, h5⟩ := expSign_spec h
+      refine ⟨h1, h2, ?_⟩
+      intro E hE
+      rw [F_cons_ne rest (by decide), h3, hneg]
+      simp only [expPartValue, Bool.false_eq_true, if_false]
+      rw [h5 E hE]
+    · by_cases hm : (c == '-') = true
+      · simp only [hp, hm, if_true] at h
+        simp only [Bool.false_eq_true, if_false] at h
+        have hc : c = '-' := by simpa using hm
+        subst hc
+        obtain ⟨h1, h2, h3, ⟨d, t, hF, hd⟩, h5⟩ := expSign_spec h
+        refine ⟨h1, h2, ?_⟩
+        intro E hE
+        rw [F_cons_ne rest (by decide), h3]
+        simp only [expPartValue, if_true]
+        rw [h5 E hE]
+      · by_cases hd : isDigit c = true
+        · simp only [hp, hm, hd, if_true] at h
+          simp only [Bool.false_eq_true, if_false] at h
+          obtain ⟨h1, h2, h3, h4⟩ := expDigits_spec rest false _ acc' h
+          have hF := F_cons_ne rest (isDigit_ne hd (by decide))
+          refine ⟨h1, h2, ?_⟩
+          intro E hE
+          rw [h4] at hE
+          obtain ⟨a, ha, hEa⟩ := checkedMulAdd_foldl _ _ _ hE
+          cases ha
+          rw [hF, expPartValue_digit _ hd, h3]
+          simp only [hneg, Bool.false_eq_true, if_false]
+          rw [hEa]
+          simp only [digitsOf, List.map_cons]
+          rw [ofDigits_cons_foldl]
+        · simp [hp, hm, hd] at h
+
+/-- the `e` of `plainValue` -/
+def expOf (ep : Option (List Char)) : Int :=
+  match ep with
+  | none => 0
+  | some ep => expPartValue ep
+
+theorem isE_not_us {c : Char} (h : isE c = true) : (c == '_') = false := by
+  cases hcd : c == '_' with
+  | false => rfl
+  | true =>
+    have : c = '_' := by simpa using hcd
+    subst this; revert h; decide
+
+/-- what the fraction states establish about the underscore-free rest `t` of the text -/
+def FracPost (acc acc' : Acc) (t : List Char) : Prop :=
+  acc'.digits = acc.digits ++ digitsOf (splitAtFirst isE t).1 ∧
+  acc'.implicitExp = acc.implicitExp - ((splitAtFirst isE t).1.length : Int) ∧
+  ∀ E : Nat, acc'.explicitExp = some E →
+    expOf (splitAtFirst isE t).2 = (if acc'.expNeg then -(E : Int) else (E : Int))
+
+theorem fracPost_digit {c : Char} {t : List Char} {acc acc' : Acc} (hd : isDigit c = true)
+    (h : FracPost { acc with digits := acc.digits ++ [digitVal c],
+                             implicitExp := acc.implicitExp - 1 } acc' t) :
+    FracPost acc acc' (c :: t) := by
+  obtain ⟨h1, h2, h3⟩ := h
+  unfold FracPost
+  rw [splitAtFirst_cons_false t (isDigit_not_isE hd)]
+  refine ⟨?_, ?_, h3⟩
+  · rw [h1]; simp [digitsOf]
+  · rw [h2]; simp only [List.length_cons]; omega
+
+theorem fracPost_exp {c : Char} {rest : List Char} {acc acc' : Acc} (he : isE c = true)
+    (h : go .exp acc rest = .ok (acc', [])) (hneg : acc.expNeg = false) :
+    FracPost acc acc' (c :: F rest) := by
+  obtain ⟨h1, h2, h3⟩ := exp_spec h hneg
+  unfold FracPost
+  rw [splitAtFirst_cons_true _ he]
+  refine ⟨?_, ?_, ?_⟩
+  · rw [h1]; simp [digitsOf]
+  · rw [h2]; simp
+  · intro E hE; exact h3 E hE
+
+theorem fracDigits_spec (cs : List Char) : ∀ (us : Bool) (acc acc' : Acc),
+    go (.fracDigits us) acc cs = .ok (acc', []) → acc.expNeg = false →
+    acc.explicitExp = some 0 → FracPost acc acc' (F cs) := by
+  induction cs with
+  | nil =>
+    intro us acc acc' h hneg hexp
+    simp only [go, atEnd] at h
+    split at h
+    · cases h
+    · cases h
+      refine ⟨by simp [F, splitAtFirst, digitsOf], by simp [F, splitAtFirst], ?_⟩
+      intro E hE
+      rw [hexp] at hE; cases hE
+      simp [F, splitAtFirst, expOf, hneg]
+  | cons c cs ih =>
+    intro us acc acc' h hneg hexp
+    simp only [go, next] at h
+    by_cases hd : isDigit c = true
+    · simp only [hd, if_true] at h
+      rw [F_cons_ne cs (isDigit_ne hd (by decide))]
+      exact fracPost_digit hd (ih false _ acc' h hneg hexp)
+    · have hd' : isDigit c = false := by simpa using hd
+      by_cases hc : c = '_'
+      · subst hc
+        cases us with
+        | true => simp [hd'] at h
+        | false =>
+          simp [hd'] at h
+          rw [F_cons_us]
+          exact ih true acc acc' h hneg hexp
+      · have hc' : (c == '_') = false := by simpa using hc
+        cases us with
+        | true => simp [hd', hc'] at h
+        | false =>
+          by_cases he : (c == 'e' || c == 'E') = true
+          · simp only [hd', hc', he, if_true] at h
+            simp only [Bool.false_eq_true, Bool.not_false, Bool.and_false, if_false] at h
+            have he' : isE c = true := he
+            rw [F_cons_ne cs hc']
+            exact fracPost_exp he' h hneg
+          · have he' : (c == 'e' || c == 'E') = false := by simpa using he
+            simp only [hd', hc', he'] at h
+            simp at h
+
+theorem dot_spec {cs : List Char} {acc acc' : Acc}
+    (h : go .dot acc cs = .ok (acc', [])) (hneg : acc.expNeg = false)
+    (hexp : acc.explicitExp = some 0) : FracPost acc acc' (F cs) := by
+  cases cs with
+  | nil => simp [go, atEnd] at h
+  | cons c rest =>
+    simp only [go, next] at h
+    by_cases hd : isDigit c = true
+    · simp only [hd, if_true] at h
+      rw [F_cons_ne rest (isDigit_ne hd (by decide))]
+      exact fracPost_digit hd (fracDigits_spec rest false _ acc' h hneg hexp)
+    · simp [hd] at h
+
 end Rsj.Dec
